@@ -5,7 +5,7 @@
    of C09 (the harness runs the bit-exact binary64 instance). *)
 From Coq Require Import List ZArith Lia.
 Import ListNotations.
-From V Require Import Base.U32 Base.Iface Gen.RsConsts C09.Model C09.Proofs C10.Model C10.Frame C10.Proofs.
+From V Require Import Base.U32 Base.Iface Gen.RsConsts C09.Model C09.Proofs C10.Model C10.Frame C10.Proofs C10.Autocal.
 Local Open Scope Z_scope.
 
 (* Bounded power, every situation in which no travel can be accounted (position unknown: not calibrated, calibration
@@ -59,3 +59,24 @@ Theorem C10_switch_off_falls : forall up k d c,
   powered up d = true -> ~ nofall up (outs (set_relay k d RELAY_OFF c false)).
 Proof. exact set_relay_off_falls. Qed.
 Print Assumptions C10_switch_off_falls.
+
+(* Auto-calibration outcome.  Whenever supla_esp_gpio_rs_autocalibrate brings the step counter back to 0 (from any state with
+   a running auto-calibration, any sensor reading), it is one of exactly two outcomes:
+   success — it was step 3, the sensor reported "not moving", the measured opening time (>= RS_AUTOCAL_MIN_TIME_MS) is stored,
+             the closing time stored by step 2 is kept, the position is "fully open" (100) and both outputs are off;
+   failure — the CALIBRATION_FAILED flag is set, both measured times, position and tilt are cleared, the task is cancelled
+             and both outputs are off.
+   (The step counter also returns to 0, without either outcome, when a command that is not part of the auto-calibration
+   aborts it — sr_abort in set_relay — or when travel times get configured — cb_head; both are commands, not callbacks.) *)
+Theorem C10_autocal_outcome : forall k d im d',
+  0 < ac_step d -> d' = fst (autocalibrate k d im) -> ac_step d' = 0 ->
+  (ac_step d = 3 /\ im = false /\ AUTOCAL_MIN_MS * 1000 <= C10.Model.up_time d /\ aot d' = C10.Model.up_time d / 1000 /\ act d' = act d /\
+   C10.Model.pos d' = 100 /\ up_on d' = false /\ down_on d' = false)
+  \/ failed_outcome d'.
+Proof. exact C10_autocal_outcome_thm. Qed.
+Print Assumptions C10_autocal_outcome.
+
+(* step 2 stores a closing time of at least RS_AUTOCAL_MIN_TIME_MS and goes on to step 3 *)
+Theorem C10_autocal_step2 : forall k d, ac_step (ac_step2_ok k d) = 3.
+Proof. exact ac_step2_ok_step. Qed.
+Print Assumptions C10_autocal_step2.
